@@ -76,7 +76,7 @@ def rule_q(ctx):
                'found %s' % A.short(arg, 80))
     # Q3 every yield delivers result(q.get()) blocking/untimed
     ys = A.yields_in(fn)
-    rep.floor('yields in lazy_parallel_map', len(ys), 2)
+    rep.floor('yields in lazy_parallel_map', len(ys), 1)
     for y in ys:
         v = y.value
         ok = isinstance(y, ast.Yield) and isinstance(v, ast.Call) and A.is_name(v.func, 'result') and len(v.args) == 1 \
